@@ -400,7 +400,13 @@ def concrete_env(builder, roots, input_vals, free_vals=None):
       continue
     try:
       a = evalr.eval_nodes([s["arg"]], env)[s["arg"].nid]
+      if s["kind"] == "opmul":
+        g = evalr.eval_nodes([s["arg2"]], env)[s["arg2"].nid]
     except KeyError:
+      continue
+    if s["kind"] == "opmul":
+      with np.errstate(all="ignore"):
+        env[r.nid] = evalr.flush(evalr.flush(g) * evalr.flush(a))
       continue
     env[r.nid] = np.float32(KERNELS[s["kind"]](np.float32(a)))
   return evalr.eval_nodes(roots, env)
